@@ -173,6 +173,19 @@ func gen(r *Rng, n int, tier string) []Case {
 			in.Pipe.Sources = []pipe.Source{{Name: "<stdin>", Stream: hex.EncodeToString(st), Script: []pipe.Step{{Want: 100}}}}
 		}
 	}
+	// the LAST batch arrives while a long periodic render is in progress and the input ends right after it:
+	// the final render must still happen and show that batch
+	for k := 14; k < 17 && k < len(ins); k++ {
+		in := &ins[k]
+		st := []byte("a:\nb:\nc:\na:\nd:\nb:\na:\ne:\n")
+		in.Pipe.Cfg.Mode = "reader"
+		in.Pipe.Cfg.Batch = 1000 // everything read so far travels as ONE batch, sent at end of input (before the 250 ms flush)
+		in.Pipe.Ignore = nil
+		in.Pipe.Extract = []pipe.KPiece{{Kind: "group", Idx: 1}}
+		in.RenderDelayUs, in.SampleDelayUs = 400000, 0
+		in.Pipe.Sources = []pipe.Source{{Name: "<stdin>", Stream: hex.EncodeToString(st),
+			Script: []pipe.Step{{Want: 6}, {Want: 100, Wait: 130 + r.Intn(90)}}}}
+	}
 	out := make([]Case, len(ins))
 	var wg sync.WaitGroup
 	sem := make(chan struct{}, 8)
